@@ -1,8 +1,11 @@
 from ..fam import hashtbl
 
 
+from ..fam import history
+
+
 def cases(tier):
-    return hashtbl.cases(tier, 'func')
+    return history.map_cases(tier, 4) + hashtbl.cases(tier, 'func')
 
 
 def meta(tier):
@@ -10,7 +13,7 @@ def meta(tier):
     return {'level': 'model_checking', 'bounds': i['bounds'],
             'outside': ['ranges and key counts above the bound (the code is uniform in the range: one modulo and one slot array)', 'keys longer than 2 bytes, values longer than 3 bytes (putint: more than 4 digits)',
                         'putstrf (vsnprintf formatting)', 'the real murmur3 hash (C18); here the hash is an arbitrary function of the key',
-                        'histories are covered through the inductive argument only: base (constructor) + one step from every valid state within the bound'],
+                        'three-call histories through the public API (every triple of put/get/remove/size/clear, symbolic keys out of four and values) complement the one-step queries', 'histories are covered through the inductive argument only: base (constructor) + one step from every valid state within the bound'],
             'stubs': i['stubs'],
             'assumptions': [i['prestate'], 'malloc does not fail here (C15 covers failure)'],
             'explanation': 'Inductive step by bounded symbolic execution of the real qhashtbl.c: pre-state = every valid table for a fixed range and fixed chain lengths (all distributions enumerated by the driver; key names, lengths, values, sizes '
